@@ -26,7 +26,7 @@ def obligations():
          Obl("C10.neighbors.nocell.2queries", "py", H, "check_neighbors", enc, "query {0,1}, haystack {2,0,1} (unsorted)", "haystack ORDER is kept; an atom in both sets is compared with the other query atoms only", 300,
              params={"cell": "none", "query": [0, 1], "haystack": [2, 0, 1]})]
     for c in sorted(CELLS):
-        quick = c in ("cubic", "ortho_ratio6", "hexagonal60", "monoclinic110", "trunc_octahedron", "triclinic_b", "triclinic_c", "triclinic_a_unreduced")
+        quick = c in ("cubic", "ortho_ratio6", "hexagonal60", "monoclinic110", "monoclinic_alpha70", "monoclinic_gamma70", "trunc_octahedron", "triclinic_b", "triclinic_c", "triclinic_a_unreduced")
         o.append(Obl(f"C10.neighbors.{c}", "py", H, "check_neighbors", enc, f"cell {c}, cutoff = half the smallest width, query {{0}}, haystack {{0,1,2}}",
                      "periodic: reported atoms have an image within the cutoff; unreported atoms have NO image within the cutoff (wrap-only suffices)", 600,
                      params={"cell": c, "cutoff_frac": 1.0}, tiers=("quick", "thorough") if quick else ("thorough",)))
